@@ -135,6 +135,13 @@ structure Cfg where
       duplicate, RFC 793 p.69) with its current ACK and window, sent from `snd_max`. Nothing is emitted
       beyond the window, `snd_nxt` / `snd_max` and the retransmit counters are untouched. -/
   fixPersistProbe : Bool := false
+  /-- F-C13-4 repair: the zero-window probes have a budget. `persist_probes` counts the probes sent since
+      the peer was last heard from (any segment with the ACK flag resets it); when a probe is due and
+      `retx_max` probes went unanswered the connection is aborted with `TimedOut`. -/
+  fixPersistBudget : Bool := false
+  /-- F-C13-5 repair: a closing wildcard listener resets only the half-open children of its own address
+      family (`0.0.0.0:p` and `[::]:p` can both listen). -/
+  fixListenerFamily : Bool := false
   deriving DecidableEq, Repr, Inhabited
 
 /-- The tree before the SND.MAX repair of F-C06-8 (seven repairs: 080947f, 018714e, 2fda244, d10c607,
@@ -149,9 +156,12 @@ def Cfg.committed8 : Cfg := { Cfg.committed7 with fixSndMax := true }
 /-- The tree with the FIN_WAIT2 timeout of F-C13-2, before the persist probe of F-C06-4. -/
 def Cfg.committed9 : Cfg := { Cfg.committed8 with fixFinWait2Timeout := true }
 
-/-- The code as committed in /repo after all repairs of this area (ten flags; the general
+/-- The tree with the persist probe of F-C06-4 (4e44fd9), before its probe budget (ten flags; the general
     `fixOrphanTimeout` was not adopted and stays off). -/
-def Cfg.committed : Cfg := { Cfg.committed9 with fixPersistProbe := true }
+def Cfg.committed10 : Cfg := { Cfg.committed9 with fixPersistProbe := true }
+
+/-- The code as committed in /repo after all repairs of this area (twelve flags). -/
+def Cfg.committed : Cfg := { Cfg.committed10 with fixPersistBudget := true, fixListenerFamily := true }
 
 /-- `advertised_window` (tcp.rs:1335). -/
 def advWindow (recvCap len : Nat) : Nat := min (recvCap - len) 65535
